@@ -365,6 +365,8 @@ class WorldC:
             self.tr.count("sample:circuit-not-normalised")
             return "not-normalised"
         rows = self._attribution(s, ex.kind, ex.k, D, n)
+        if ex.kind == "gaussian_sig" and n >= 200:
+            self._gaussian_noise(s, float(self.rec["input"]["sigma"]), D, n)
         # Q2 support
         mult = ex.k ** np.arange(D - 1, -1, -1)
         ptab = np.zeros(ex.k ** D)
@@ -431,6 +433,36 @@ class WorldC:
                         "Q3", f"row {j} = {rows[j].tolist()}: a column carries a value its variable "
                               f"cannot emit [{self._where()}]")
         return rows
+
+    def _gaussian_noise(self, s: np.ndarray, sigma: float, D: int, n: int) -> None:
+        """Q6 (signature Gaussians): the residual of every column around its unit's mean is N(0,
+        sigma^2), independently across columns and samples - the *joint* of the continuous parts,
+        which the discretised frequency test cannot see."""
+        from scipy import stats
+
+        z = (s - np.rint(s)) / sigma  # (n, D)
+        self.tr.count("cmp:Q6")
+        for v in range(D):
+            zv = z[:, v]
+            pm = 2.0 * float(stats.norm.sf(abs(float(zv.mean())) * np.sqrt(n)))
+            q = float((zv * zv).sum())
+            pv = 2.0 * min(float(stats.chi2.cdf(q, n)), float(stats.chi2.sf(q, n)))
+            if min(pm, pv) < 1e-10 / D:
+                raise Violation(
+                    "Q6", f"N={n}: the noise of column {v} around its unit mean has mean {zv.mean():.3f} "
+                          f"sigma and variance {q / n:.3f} sigma^2 (p={min(pm, pv):.1e}) [{self._where()}]")
+        if D >= 2 and n >= 500:
+            c = np.corrcoef(z, rowvar=False)
+            np.fill_diagonal(c, 0.0)
+            a, b = np.unravel_index(int(np.argmax(np.abs(c))), c.shape)
+            npairs = D * (D - 1) // 2
+            # under independence sqrt(n) * r is asymptotically N(0,1)
+            p = 2.0 * float(stats.norm.sf(abs(float(c[a, b])) * np.sqrt(n)))
+            if p < 1e-10 / npairs:
+                raise Violation(
+                    "Q6", f"N={n}: the noises of columns {a} and {b} are correlated (r={c[a, b]:.3f}, "
+                          f"p={p:.1e}): the variables are not sampled independently given their units "
+                          f"[{self._where()}]")
 
     def _where(self) -> str:
         r = self.rec
